@@ -479,7 +479,11 @@ def soak(ctx):
     rng = ctx.rng
     p = Prog('soak')
     for _ in range(rng.randint(1, 2)):
-        p.call('caller.soak', rng.choice(SOAK_FUNCTIONS), rng.choice([150, 300, 600, 1100]), rng.randrange(1 << 30), rng.choice([6, 7, 9]))
+        if rng.random() < 0.5:
+            p.call('caller.soak', rng.choice(SOAK_FUNCTIONS), rng.choice([150, 300, 600, 1100]), rng.randrange(1 << 30), rng.choice([6, 7, 9]))
+        else:
+            p.call('caller.laysoak', rng.choice(SOAK_FUNCTIONS), rng.choice([60, 120, 250]), rng.randrange(1 << 30),
+                   rng.choice([3, 4, 5, 6, 7, 8, 9, 12, 17, 33]), rng.choice(['F', 'Fview', 'view', 'neg', 'int64']))
         p.steps[-1]['nodup'] = True
     return p.out()
 
